@@ -101,4 +101,49 @@ RIME_DLL extern CrashPointHook crashpoint_hook;
 
 #endif  // RIME_VERIF_HOOKS_DEPLOY_
 
+// ---------------------------------------------------------------------------
+// User db transaction trace (self-contained section).
+// RIME_VERIF_TXN(op, key, value) reports, from inside dict/level_db.cc, the
+// transaction boundaries ("begin", "commit", "commit.done", "abort"), the
+// routing of every write as it is actually performed ("put.batch", "put.db",
+// "del.batch", "del.db"), what a read returns ("fetch", "fetch.miss") and
+// "open"/"open.fail"/"close".  Writes and boundaries are reported BEFORE they
+// take effect, reads and "commit.done"/"open" after.  Null pointer (the
+// default) = no-op.
+#ifndef RIME_VERIF_HOOKS_TXN_
+#define RIME_VERIF_HOOKS_TXN_
+
+#ifdef RIME_VERIF
+
+#include <string>
+
+namespace rime {
+namespace verif {
+
+using TxnHook = void (*)(const char* op,
+                         const std::string& key,
+                         const std::string& value);
+
+// defined in dict/level_db.cc
+RIME_DLL extern TxnHook txn_hook;
+
+}  // namespace verif
+}  // namespace rime
+
+#define RIME_VERIF_TXN(op, key, value)                    \
+  do {                                                    \
+    if (auto rime_verif_txn_h_ = ::rime::verif::txn_hook) \
+      rime_verif_txn_h_((op), (key), (value));            \
+  } while (0)
+
+#else  // RIME_VERIF
+
+#define RIME_VERIF_TXN(op, key, value) \
+  do {                                 \
+  } while (0)
+
+#endif  // RIME_VERIF
+
+#endif  // RIME_VERIF_HOOKS_TXN_
+
 #endif  // RIME_VERIF_HOOKS_H_
